@@ -45,7 +45,11 @@ RANDOM_OPTS = {
     'script_ops': ['ret', 'fire', 'fire', 'stop', 'cancel'], 'flags': [0], 'maxfire': 3, 'maxops_script': 4,
     'eprios': [-2, -1, 0, 0, 1, 2, 3], 'targets': [None, '*', 'a', 'b'], 'p_script': 0.8, 'p_multichannel': 0.3,
     'hist_ops': ['fire', 'fire', 'fire', 'flush', 'tick', 'cancel'], 'histlen': (3, 10), 'ext_names': 3, 'p_attach': 1.0,
+    'p_noevent': 0.25, 'p_age': 0.15,
 }
+# prioritised events queued on components that are still detached, then registered (the queue migrates)
+MIGRATE_OPTS = dict(RANDOM_OPTS, p_attach=0.3, p_multichannel=0.0, p_age=0.0,
+                    hist_ops=['fire', 'fire', 'fire', 'reg', 'reg', 'flush', 'tick'], histlen=(4, 10))
 
 
 # handlers that flush() themselves: the nested call continues the pass in progress and must not
@@ -73,7 +77,7 @@ def nested_flush_cases():
 def gen_random(rnd, quick):
     yield from nested_flush_cases()
     for i in range(300 if quick else 6000):
-        opts = FLUSH_OPTS if i % 3 == 2 else RANDOM_OPTS
+        opts = FLUSH_OPTS if i % 3 == 2 else MIGRATE_OPTS if i % 7 == 3 else RANDOM_OPTS
         prog = kernelgen.gen_program(rnd, opts)
         yield prog, kernelgen.gen_history(rnd, opts, prog)
 
